@@ -182,7 +182,7 @@ func (c *c12Case) describeCause(snd *RTPSender, cause string) string {
 		mine = fmt.Sprintf("%s (bound on SSRCs %v)", c12TrackLabel(att.track), c12Bound(att.track))
 	}
 
-	return fmt.Sprintf("; the harness attached %s to this sender (last call on it: %s), RTPSender.Track() reports %s", mine, att.lastOp, api)
+	return fmt.Sprintf("; the harness attached %s to this sender (last call on it: %s; Track() first differed after: %s), RTPSender.Track() reports %s", mine, att.lastOp, att.divergedAfter, api)
 }
 
 func (c *c12Case) stateDump() []string {
@@ -272,10 +272,13 @@ func (t *c12Track) label() string {
 
 // c12Attachment: what the harness attached to one sender, and through which call it last touched it.
 type c12Attachment struct {
-	track   TrackLocal // nil: the harness detached the track (successful ReplaceTrack(nil))
-	mine    *c12Track  // == track when the harness built the track object (not for the track AddTransceiverFromKind creates itself)
-	lastOp  string     // last API call on this sender and its outcome class (stable text: part of cause signatures)
-	unknown bool       // a call failed half-way in a manner the statement does not cover: fall back to what the API reports
+	track  TrackLocal // nil: the harness detached the track (successful ReplaceTrack(nil))
+	mine   *c12Track  // == track when the harness built the track object (not for the track AddTransceiverFromKind creates itself)
+	lastOp string     // last API call on this sender and its outcome class (stable text: part of cause signatures)
+	// divergedAfter: the call after which RTPSender.Track() was first seen to differ from this record (read right after each
+	// ReplaceTrack; "" while they agree). Only names the cause in signatures, never decides a verdict.
+	divergedAfter string
+	unknown       bool // a call failed half-way in a manner the statement does not cover: fall back to what the API reports
 }
 
 // attach records that tr (nil: no track) is now the track of sender s.
@@ -572,8 +575,12 @@ func (c *c12Case) checkOffer(offer SessionDescription) { //nolint:cyclop,gocogni
 			mine = att.mine
 			if att.track != apiTrack {
 				c.run.Count("model_divergence_sender_track", 1)
-				c.run.Seen("model_divergence_sender_track_after", att.lastOp)
-				cause = ":sender-track-differs-from-attached:after-" + att.lastOp
+				after := att.lastOp
+				if att.divergedAfter != "" {
+					after = att.divergedAfter
+				}
+				c.run.Seen("model_divergence_sender_track_after", after)
+				cause = ":sender-track-differs-from-attached:after-" + after
 			}
 			track = att.track
 			c.run.Count("senders_judged_by_own_record", 1)
@@ -1101,6 +1108,12 @@ func (c *c12Case) replaced(snd *RTPSender, tr *c12Track, err error, old TrackLoc
 		att.track, att.mine, att.unknown = tr, tr, false
 	case out == "failed:other", wasBound && len(c12Bound(old)) == 0:
 		att.unknown = true
+	}
+	switch {
+	case att.unknown || snd.Track() == att.track:
+		att.divergedAfter = ""
+	case att.divergedAfter == "":
+		att.divergedAfter = att.lastOp
 	}
 }
 
